@@ -215,6 +215,10 @@ def note_mod_resolves(H, shape):
         H.setattr(n2, "mod", m)
         H.check(f"setter_stores_position_plus_one[{i}]", n2.module == i + 1)
         H.check(f"setter_getter_roundtrip[{i}]", H.getattr(n2, "mod") is m)
+        # int(module) is the number to put into a pattern cell for that module
+        n3 = Note(pattern=pat)
+        n3.module = H.call(int, m)
+        H.check(f"int_of_module_is_its_pattern_number[{i}]", n3.module == i + 1 and H.getattr(n3, "mod") is m)
     loose = Amplifier()
     exc, _ = H.raises(H.setattr, Note(pattern=pat), "mod", loose)
     H.check("unattached_module_refused", isinstance(exc, ModuleOwnershipError))
